@@ -648,7 +648,9 @@ func c05Corpus(c *Ctx, i int) {
 		}
 	case 3: // exclusive bound at the -Inf singleton is silently ignored
 		var res cty.Value
-		p, _ := recovered(func() { res = cty.UnknownVal(cty.Number).Refine().NotNull().NumberRangeLowerBound(cty.NegativeInfinity, false).NewValue() })
+		p, _ := recovered(func() {
+			res = cty.UnknownVal(cty.Number).Refine().NotNull().NumberRangeLowerBound(cty.NegativeInfinity, false).NewValue()
+		})
 		c.Add("corpus", fmt.Sprintf("K05_run %s %s %s", cq.Val(cty.UnknownVal(cty.Number)), cq.List([]string{"RcNotNull", rcall{kind: "lower", v: cty.NegativeInfinity, inc: false}.coq()}), cq.ResVal(res, p)), "x > -inf", true)
 	case 6, 7: // an exclusive bound at the infinity on its own side: reported as given, and that infinity is excluded
 		v := cty.UnknownVal(cty.Number).Refine().NotNull().NumberRangeLowerBound(cty.NegativeInfinity, false).NewValue()
@@ -673,7 +675,9 @@ func c05Corpus(c *Ctx, i int) {
 		}
 	case 4:
 		var res cty.Value
-		p, _ := recovered(func() { res = cty.UnknownVal(cty.Number).Refine().NumberRangeLowerBound(cty.PositiveInfinity, false).NewValue() })
+		p, _ := recovered(func() {
+			res = cty.UnknownVal(cty.Number).Refine().NumberRangeLowerBound(cty.PositiveInfinity, false).NewValue()
+		})
 		c.Add("corpus", fmt.Sprintf("K05_run %s %s %s", cq.Val(cty.UnknownVal(cty.Number)), cq.List([]string{rcall{kind: "lower", v: cty.PositiveInfinity, inc: false}.coq()}), cq.ResVal(res, p)), "x > +inf", true)
 		if !p {
 			c.Fail("C05/exclusive-bound-at-far-infinity", "x > +Inf accepted: the refined value admits no number", nil)
